@@ -15,7 +15,7 @@ Quiescent == ready = <<>>
 \* one of these deviation clauses is excused for THAT property only.
 DevOf(p) == CASE p = "C01" -> {}
               [] p = "C02" -> {"D7", "D9", "D10"}
-              [] p = "C03" -> {"D10"}
+              [] p = "C03" -> {"D3", "D4", "D7", "D10", "D11"}
               [] p = "C04" -> {"D3", "D8", "D9", "D10"}
               [] p = "C05" -> {"D4", "D6", "D10"}
               [] p = "C06" -> {"D5"}
